@@ -178,6 +178,12 @@ def _base():
     n.add_field_sig(FieldSignature('id', models.AutoField, {'primary_key': True}))
     n.add_field_sig(FieldSignature('c', models.IntegerField, {'null': True}))
     app.add_model_sig(n)
+    # models whose primary key is a relation (multi-table-inheritance style link / FK as pk)
+    for name, ftype in (('P', models.OneToOneField), ('R', models.ForeignKey)):
+        p = ModelSignature(model_name=name, table_name='app_' + name.lower(), pk_column='parent_id')
+        p.add_field_sig(FieldSignature('parent', ftype, {'primary_key': True}, related_model='app.M'))
+        p.add_field_sig(FieldSignature('v', models.IntegerField, {'null': True}))
+        app.add_model_sig(p)
     return proj
 
 
@@ -207,7 +213,7 @@ def h_named_rejections(cls: int, which: int, ai: int, mi: int, fi: int,
     """The five named error classes must raise SimulationFailure (nothing else, never succeed).
 
     cls 0 missing app, 1 missing model, 2 missing field (change/delete), 3 add existing field,
-        4 delete primary key, 5 AddField non-null without initial, 6 ChangeField null=False without initial
+        4 delete primary key (AutoField id, OneToOneField / ForeignKey primary keys), 5 AddField non-null without initial, 6 ChangeField null=False without initial
     pre: 0 <= cls <= 6 and 0 <= which <= 4 and 1 <= ai <= 3 and 0 <= mi <= 4 and 0 <= fi <= 6
     pre: 1 <= length <= 255
     pre: hx.in_part(cls)
@@ -246,7 +252,8 @@ def h_named_rejections(cls: int, which: int, ai: int, mi: int, fi: int,
                                                models.IntegerField, models.IntegerField], which),
                          initial=initial, max_length=length)]
     elif cls == 4:
-        muts = [DeleteField(['M', 'N'][which % 2], 'id')]
+        mname, fname = hx.pick([('M', 'id'), ('N', 'id'), ('P', 'parent'), ('R', 'parent'), ('M', 'id')], which)
+        muts = [DeleteField(mname, fname)]
     elif cls == 5:
         ft = hx.pick([models.IntegerField, models.CharField, models.BooleanField, models.DecimalField,
                       models.ForeignKey], which)
